@@ -37,6 +37,8 @@ pub struct GenOpts {
     pub qualified_names: bool,
     /// two-version definitions that are a copy of the first version with ONE mutation (near misses)
     pub near_miss: bool,
+    /// array lengths written as a const generic parameter (`[T; N]`) in definitions with one array
+    pub const_generic_arrays: bool,
     /// always add a second version of a whole group of definitions (see `near_miss_group_version`)
     pub force_group_version: bool,
     /// `#[codec(compact)] f: ()` and `Compact<()>` (`()` is HasCompact, its encoding is empty)
@@ -75,6 +77,7 @@ impl GenOpts {
             near_miss: true,
             compact_unit: true,
             force_group_version: false,
+            const_generic_arrays: true,
             skipped_in_fields: false,
             ord_keys_only: false,
             other_ptrs: true,
@@ -1429,12 +1432,16 @@ pub fn gen_program(t: &mut Tape, o: &GenOpts) -> Generated {
         }
     }
 
-    let name_style = if o.qualified_names && g.t.chance(60) {
+    let mut name_style = if o.qualified_names && g.t.chance(60) {
         g.labels.insert("qualified_type_names");
         1
     } else {
         0
     };
+    if o.const_generic_arrays && g.t.chance(60) {
+        g.labels.insert("const_generic_array_lengths");
+        name_style |= 2;
+    }
     let labels = g.labels;
     Generated {
         prog: Program { defs, roots, name_style },
